@@ -372,8 +372,8 @@ HASH_P = 2305843009213693951      # 2**61 - 1  (sys.hash_info.modulus on 64-bit 
 
 
 def HashSpec(result, s):
-    """CPython's numeric hash of the exact value of a canonical raw mpf (before the -1 -> -2
-    adjustment that CPython applies to every __hash__ result): inf/nan as sys.hash_info says,
+    """CPython's numeric hash of the exact value of a canonical raw mpf (including the -1 -> -2
+    adjustment): inf/nan as sys.hash_info says,
     otherwise sign * (man * 2**exp mod P) with 2**exp reduced through 2**61 == 1 (mod P)."""
     if s == fnan:
         return result == 0
@@ -383,8 +383,21 @@ def HashSpec(result, s):
         return result == -314159
     h = ((s[1] % HASH_P) * pow2(s[2] % 61)) % HASH_P
     if s[0] == 1:
+        if h == 1:
+            return result == -2          # CPython never returns -1 from a hash
         return result == -h
     return result == h
+
+
+def ComplexHashSpec(result, hre, him):
+    """CPython's complex hash from the hashes of the parts: hre + 1000003*him wrapped to a
+    signed 64-bit word, -1 replaced by -2"""
+    u = (hre + 1000003 * him) % 18446744073709551616
+    if u >= 9223372036854775808:
+        if u - 18446744073709551616 == -1:
+            return result == -2
+        return result == u - 18446744073709551616
+    return result == u
 
 
 # ----------------------------------------------------------------------------- division
@@ -486,3 +499,44 @@ def ModSpec(result, s, t, prec, rnd):
     if r >= 0:
         return CRound(result, 0, r, E, prec, rnd)
     return CRound(result, 1, -r, E, prec, rnd)
+
+
+# ----------------------------------------------------------------------------- complex (C04)
+
+def WFc(z):
+    return WF(z[0]) and WF(z[1])
+
+
+def WFcfin(z):
+    return WFfin(z[0]) and WFfin(z[1])
+
+
+def bits_ok(x, prec):
+    return prec == 0 or special(x) or x[3] <= prec
+
+
+def exact_prod(s, t):
+    """canonical exact product of two canonical finite values"""
+    if s[1] == 0 or t[1] == 0:
+        return fzero
+    return (xor01(s[0], t[0]), s[1] * t[1], s[2] + t[2], bitlen(s[1] * t[1]))
+
+
+def hash_value(s):
+    """the integer h with HashSpec(h, s) (function form, for composition)"""
+    if s == fnan:
+        return 0
+    if s == finf:
+        return 314159
+    if s == fninf:
+        return -314159
+    h = ((s[1] % HASH_P) * pow2(s[2] % 61)) % HASH_P
+    if s[0] == 1:
+        if h == 1:
+            return -2
+        return -h
+    return h
+
+
+def HashOfComplex(result, z):
+    return ComplexHashSpec(result, hash_value(z[0]), hash_value(z[1]))
